@@ -31,7 +31,12 @@ ACH = {
     # initial state, restart_after_stop_possible, restart_on_next_ball_when_started, enable_on_next_ball_when_enabled
     "ach1": dict(initial="enabled", rasp=True, ronb=False, eonb=True),
     "ach2": dict(initial="disabled", rasp=False, ronb=True, eonb=False),
+    # members of achievement group ag2 (same mode)
+    "g_a": dict(initial="enabled", rasp=True, ronb=False, eonb=True),
+    "g_b": dict(initial="enabled", rasp=True, ronb=False, eonb=True),
+    "g_c": dict(initial="enabled", rasp=True, ronb=False, eonb=True),
 }
+G_ACH = ["g_a", "g_b", "g_c"]
 
 Q_ACH = ["q_a", "q_b"]        # achievements of m2, managed by achievement group ag of m1
 T1_END = 6
@@ -57,6 +62,7 @@ def new_dev():
     return {"t1_running": False, "c_np": None, "attached": {"m1": None, "m2": None}, "seq": {"m1": 0, "m2": 0},
             "load_time": {"m1": None, "m2": None}, "pending_enable": {"m1": [], "m2": []},
             "timeout": {}, "restore_arm": {}, "dl": [], "dl_base_known": True,
+            "ag2": new_group(),
             "t1_pause": None,      # pending timed resume of timer t1
             "sg2_rot": False,      # shot group sg2: rotation is off until ev_sg2_rot_on, from config at every mode start
             "sq": {},              # score queue sq_pts: player -> undelivered points [certainly queued, possibly queued,
@@ -357,6 +363,122 @@ def ach_unselect(x, n):
         a[1] = False
 
 
+# ---------------------------------------------------------------- achievement group ag2 (g_a, g_b, g_c)
+# Options: auto_select false, disable_random true, allow_selection_change_while_disabled false,
+# disable_while_achievement_started true, enable_while_no_achievement_started true.
+# The group's own state (enabled, current member) is a property of one run of its mode: it starts from scratch
+# whenever the mode is loaded; everything else it knows comes from the achievements of the player who is up.
+
+def new_group():
+    return {"loaded": False, "enabled": False, "sel": None, "rip": False}
+
+
+def _g_selectable(x, n):
+    a = _ach(x, n)
+    return bool(a) and (a[0] == "enabled" or (ACH[n]["rasp"] and a[0] == "stopped"))
+
+
+def _g_avail(x):
+    return [n for n in G_ACH if _g_selectable(x, n)]
+
+
+def _g_started(x):
+    return any((_ach(x, n) or [None])[0] == "started" for n in G_ACH)
+
+
+def _g_selected(x, n):
+    a = _ach(x, n)
+    return bool(a and a[1])
+
+
+def g_select_first(x):
+    """select_random_achievement() with disable_random: the first selectable member."""
+    g = x.dev["ag2"]
+    if not g["enabled"]:
+        return
+    if g["sel"] and _g_selected(x, g["sel"]):
+        ach_unselect(x, g["sel"])
+    av = _g_avail(x)
+    if av:
+        g["sel"] = av[0]
+        ach_select(x, av[0])
+
+
+def g_process(x):
+    g = x.dev["ag2"]
+    if g["rip"] or not g["enabled"]:
+        return
+    if all((_ach(x, n) or [None])[0] == "completed" for n in G_ACH):
+        g["enabled"] = False
+    if not _g_avail(x):
+        return
+    for n in G_ACH:
+        if _g_selected(x, n):
+            g["sel"] = n
+            return
+
+
+def g_enable(x):
+    g = x.dev["ag2"]
+    if not g["loaded"] or g["enabled"]:
+        return
+    if _g_started(x):
+        return
+    g["enabled"] = True
+    if g["sel"] and _g_selected(x, g["sel"]):
+        g["sel"] = None
+    g_process(x)
+
+
+def g_disable(x):
+    x.dev["ag2"]["enabled"] = False
+
+
+def g_member_changed(x):
+    g = x.dev["ag2"]
+    if not g["loaded"]:
+        return
+    if _g_started(x):
+        if g["enabled"]:
+            g_disable(x)
+        else:
+            g_process(x)
+    elif not g["enabled"]:
+        g_enable(x)
+    else:
+        g_process(x)
+
+
+def g_rotate(x, reverse=False):
+    g = x.dev["ag2"]
+    if not g["enabled"]:
+        return
+    if not g["sel"]:
+        return                      # nothing selected and auto_select is off
+    g["rip"] = True
+    if _g_selected(x, g["sel"]):
+        ach_unselect(x, g["sel"])
+    av = _g_avail(x)
+    if not av:
+        g["rip"] = False            # (the statement does not let a finished rotation block the group for good)
+        return
+    if g["sel"] in av:
+        i = av.index(g["sel"])
+        g["sel"] = av[(i - 1) % len(av)] if reverse else av[(i + 1) % len(av)]
+    ach_select(x, g["sel"])
+    g["rip"] = False
+
+
+def g_start_selected(x):
+    g = x.dev["ag2"]
+    if not g["enabled"]:
+        return
+    if not g["sel"]:
+        g_select_first(x)
+    if g["sel"]:
+        ach_start(x, g["sel"])
+
+
 # ---------------------------------------------------------------- timer t1
 
 TICK = "m1_t1_tick"
@@ -515,6 +637,22 @@ EFFECTS = {
     "ev_ag_rotate": [], "ev_ag_rotate_left": [], "ev_ag_start": [], "ev_ag_enable": [], "ev_ag_disable": [],
     "ev_q_a_complete": [], "ev_q_b_stop": [],
     "achievement_q_a_changed_state": [], "achievement_q_b_changed_state": [],
+    "ev_ag2_rotate": [("m1", _p(g_rotate, False))],
+    "ev_ag2_rotate_left": [("m1", _p(g_rotate, True))],
+    "ev_ag2_select": [("m1", _p(g_rotate, False))],       # disable_random: the select event rotates
+    "ev_ag2_start": [("m1", g_start_selected)],
+    "ev_ag2_enable": [("m1", g_enable)],
+    "ev_ag2_disable": [("m1", g_disable)],
+    "ev_g_a_select": [("m1", _p(ach_select, "g_a"))],
+    "ev_g_b_select": [("m1", _p(ach_select, "g_b"))],
+    "ev_g_c_select": [("m1", _p(ach_select, "g_c"))],
+    "ev_g_complete": [("m1", _p(ach_complete, n)) for n in G_ACH],
+    "ev_g_stop": [("m1", _p(ach_stop, n)) for n in G_ACH],
+    "ev_g_reset": [("m1", _p(ach_reset, n)) for n in G_ACH],
+    # posted by the member achievements whenever they (re)announce their state: the group reacts
+    "achievement_g_a_changed_state": [("m1", g_member_changed)],
+    "achievement_g_b_changed_state": [("m1", g_member_changed)],
+    "achievement_g_c_changed_state": [("m1", g_member_changed)],
     "ev_m2_start": [],
     "ev_m2_stop": [],
     # events emitted by the devices themselves that the variable_player of m1 scores on
@@ -579,6 +717,8 @@ def model_load(x, mode):
                 a[0] = "stopped"
             elif a[0] == "enabled" and not ACH[n]["eonb"]:
                 a[0] = "disabled"
+    dev["ag2"] = new_group()
+    dev["ag2"]["loaded"] = True
     # the timer (re)starts from its start value every time the mode loads
     x.ps["vars"][TICK] = 0
     dev["t1_running"] = False
@@ -598,6 +738,7 @@ def model_unload(dev, mode):
     dev["attached"][mode] = None
     dev["pending_enable"][mode] = []
     if mode == "m1":
+        dev["ag2"] = new_group()
         dev["t1_running"] = False
         dev["t1_pause"] = None
         dev["c_np"] = None
